@@ -25,6 +25,7 @@ import (
 	"sync/atomic"
 	"testing"
 	"time"
+	"unicode/utf8"
 
 	"pgregory.net/rapid"
 	"verif.local/kit"
@@ -36,13 +37,15 @@ func init() {
 }
 
 const (
-	c19OldBase  = 900000 // ids >= this: records written by an earlier run (not judged)
-	c19MinLen   = 16
-	c19KnownFp  = "rotate-drops-fp"
-	c19KnownBuf = "write-retains-slice"
-	c19GStride  = 10000 // record id = (entry point*4 + goroutine)*stride + sequence number
-	c19Keys     = 32    // 8 entry points x 4 goroutines
-	c19DateOnly = "2006-01-02"
+	c19OldBase   = 900000 // ids >= this: records written by an earlier run (not judged)
+	c19MinLen    = 16
+	c19KnownFp   = "rotate-drops-fp"
+	c19KnownBuf  = "write-retains-slice"
+	c19KnownGlob = "glob-meta-in-path"
+	c19GlobMeta  = "*?[\\"
+	c19GStride   = 10000 // record id = (entry point*4 + goroutine)*stride + sequence number
+	c19Keys      = 32    // 8 entry points x 4 goroutines
+	c19DateOnly  = "2006-01-02"
 )
 
 type c19Pre struct {
@@ -61,22 +64,30 @@ type c19Step struct {
 }
 
 type c19Case struct {
-	Rule       string   `json:"rule"` // daily | size
-	Days       int      `json:"days"`
-	Gzip       bool     `json:"gz"`   // the rule's gzip flag
-	Compress   bool     `json:"comp"` // the logger's compress flag (createOutput always passes the same value)
-	Delim      string   `json:"delim"`
-	Base       string   `json:"base"`
-	MaxSize    int      `json:"max,omitempty"` // size rule: bytes set through the in-package field; 0 = constructor's 1 MB
-	MaxBackups int      `json:"mb,omitempty"`
-	T0         int64    `json:"t0,omitempty"`  // seconds slept before anything is created
-	Subdir     bool     `json:"sub,omitempty"` // log directory does not exist yet
-	PreCur     []int    `json:"precur,omitempty"`
-	Pre        []c19Pre `json:"pre,omitempty"`
-	Unrel      []string `json:"unrel,omitempty"`
-	StepWait   bool     `json:"sw,omitempty"`  // wait for quiescence after every single record
-	TZ         int      `json:"tz,omitempty"`  // local time zone, minutes east of UTC (names are formatted in local time)
-	Via        bool     `json:"via,omitempty"` // build the writer through logx.createOutput and the package options
+	Rule       string `json:"rule"` // daily | size
+	Days       int    `json:"days"`
+	Gzip       bool   `json:"gz"`   // the rule's gzip flag
+	Compress   bool   `json:"comp"` // the logger's compress flag (createOutput always passes the same value)
+	Delim      string `json:"delim"`
+	Base       string `json:"base"`
+	MaxSize    int    `json:"max,omitempty"` // size rule: bytes set through the in-package field; 0 = constructor's 1 MB
+	MaxBackups int    `json:"mb,omitempty"`
+	T0         int64  `json:"t0,omitempty"`  // seconds slept before anything is created
+	Subdir     bool   `json:"sub,omitempty"` // log directory does not exist yet
+	// Dir: name of the log directory (one path component below the case's root; "" = the root
+	// itself / "logs/svc" with Subdir). Dir and Base range over what a POSIX file name may hold.
+	Dir string `json:"dir,omitempty"`
+	// Sib: a sibling directory whose name the glob pattern made from Dir would also match; it
+	// holds files named like old backups and must never be touched. Bait: the same for Base,
+	// in the log directory itself.
+	Sib      string   `json:"sib,omitempty"`
+	Bait     string   `json:"bait,omitempty"`
+	PreCur   []int    `json:"precur,omitempty"`
+	Pre      []c19Pre `json:"pre,omitempty"`
+	Unrel    []string `json:"unrel,omitempty"`
+	StepWait bool     `json:"sw,omitempty"`  // wait for quiescence after every single record
+	TZ       int      `json:"tz,omitempty"`  // local time zone, minutes east of UTC (names are formatted in local time)
+	Via      bool     `json:"via,omitempty"` // build the writer through logx.createOutput and the package options
 	// Buf: what the caller does with its buffer once Write has returned (legal for any io.Writer):
 	// "" a fresh slice per record, never touched again; "reuse" one buffer, overwritten with the
 	// next record (garbage after the last one of a burst); "zero" fresh slice, zeroed after Write.
@@ -462,6 +473,7 @@ type c19Result struct {
 	fail      string
 	known     string
 	knownBuf  string
+	knownGlob string
 	rotations int
 	classes   map[string]bool
 	preGone   int
@@ -488,14 +500,29 @@ func c19Interp(t *testing.T, c c19Case) (v kit.Verdict) {
 	case r.knownBuf != "":
 		v.Fail = r.knownBuf
 		v.Known = c19KnownBuf
+	case r.knownGlob != "":
+		v.Fail = r.knownGlob
+		v.Known = c19KnownGlob
 	}
 	return v
 }
 
 func c19Run(c c19Case, root string, r *c19Result) {
 	e := &c19Env{c: c, dir: root}
-	if c.Subdir {
+	sibDir := ""
+	switch {
+	case c.Dir != "" && c.Subdir:
+		e.dir = filepath.Join(root, c.Dir, "svc")
+	case c.Dir != "":
+		e.dir = filepath.Join(root, c.Dir)
+	case c.Subdir:
 		e.dir = filepath.Join(root, "logs", "svc")
+	}
+	if c.Dir != "" && c.Sib != "" && c.Sib != c.Dir {
+		sibDir = filepath.Join(root, c.Sib)
+		if c.Subdir {
+			sibDir = filepath.Join(sibDir, "svc")
+		}
 	}
 	failf := func(format string, a ...any) {
 		if r.fail == "" {
@@ -505,6 +532,15 @@ func c19Run(c c19Case, root string, r *c19Result) {
 	if err := os.MkdirAll(root, 0o755); err != nil {
 		failf("setup: %v", err)
 		return
+	}
+	if !c.Subdir {
+		if err := os.MkdirAll(e.dir, 0o755); err != nil {
+			failf("setup: %v", err)
+			return
+		}
+	}
+	for _, cl := range c19PathClasses(c.Dir + c.Base) {
+		r.classes[cl] = true
 	}
 	if c.TZ != 0 {
 		saved := time.Local
@@ -556,7 +592,27 @@ func c19Run(c c19Case, root string, r *c19Result) {
 			write(name, b)
 		}
 		for _, u := range c.Unrel {
-			write(u, []byte("unrelated "+u+"\n"))
+			if k, _, _, _ := e.classify(u); k == c19Other {
+				write(u, []byte("unrelated "+u+"\n"))
+			}
+		}
+		// bait: files named like old backups of a log whose name the glob pattern built from
+		// Base would match as well; they are not backups of this log
+		if c.Bait != "" && c.Bait != c.Base && c.Mode == "" {
+			fake := &c19Log{base: c.Bait, ext: filepath.Ext(c.Bait)}
+			fake.prefix = c.Bait[:len(c.Bait)-len(fake.ext)]
+			for _, age := range []int{2, 9} {
+				bt := start.Add(-time.Duration(age) * 24 * time.Hour)
+				if c.Rule == "daily" {
+					bt = c19Day(start).AddDate(0, 0, -age)
+				}
+				if n := e.backupName(fake, bt, c.Gzip); len(n) <= 250 {
+					if k, _, _, _ := e.classify(n); k == c19Other {
+						write(n, []byte("bait "+n+"\n"))
+						r.classes["bait-file"] = true
+					}
+				}
+			}
 		}
 		if len(c.PreCur) > 0 {
 			var b []byte
@@ -567,6 +623,28 @@ func c19Run(c c19Case, root string, r *c19Result) {
 			delete(pre, e.logs[0].base) // the current file grows; judged through the record rules
 			r.classes["restart-append"] = true
 		}
+	}
+	sib := map[string][]byte{} // path -> content of the files in the sibling directory
+	if sibDir != "" {
+		if err := os.MkdirAll(sibDir, 0o755); err != nil {
+			failf("setup: %v", err)
+			return
+		}
+		for _, lg := range e.logs {
+			for _, age := range []int{2, 9} {
+				bt := start.Add(-time.Duration(age) * 24 * time.Hour)
+				if c.Rule == "daily" {
+					bt = c19Day(start).AddDate(0, 0, -age)
+				}
+				p := filepath.Join(sibDir, e.backupName(lg, bt, c.Gzip))
+				sib[p] = []byte("sibling " + p + "\n")
+				if err := os.WriteFile(p, sib[p], 0o600); err != nil {
+					failf("setup: %v", err)
+					return
+				}
+			}
+		}
+		r.classes["sibling-directory"] = true
 	}
 	if r.fail != "" {
 		return
@@ -687,6 +765,11 @@ func c19Run(c c19Case, root string, r *c19Result) {
 	var count [c19Keys]int // records accepted so far, per (entry point, goroutine)
 	recordsJudged := true  // false once the known defect "write-retains-slice" has damaged the files
 	retains := c.Buf != "" || c.Mode == "plain"
+	// globby: the path holds a glob meta-character. OutdatedFiles uses the path as a
+	// filepath.Glob pattern (finding glob-meta-in-path): retention failures of such cases are
+	// attributed to it and retention is then not judged any further in the case.
+	globby := strings.ContainsAny(c.Dir, c19GlobMeta) || (c.Mode == "" && strings.ContainsAny(c.Base, c19GlobMeta))
+	retentionJudged := true
 	coherent := c.Gzip == c.Compress
 	if !coherent {
 		r.classes["gzip-flags-differ"] = true
@@ -722,6 +805,28 @@ func c19Run(c c19Case, root string, r *c19Result) {
 			failf(format, a...)
 			return false
 		}
+		retFail := func(format string, a ...any) bool {
+			if globby {
+				if r.knownGlob == "" {
+					r.knownGlob = fmt.Sprintf(format, a...) + " [the path contains a glob meta-character]"
+				}
+				retentionJudged = false
+				return true
+			}
+			failf(format, a...)
+			return false
+		}
+		// files of the sibling directory are never touched
+		if retentionJudged {
+			for p, b := range sib {
+				if got, err := os.ReadFile(p); err != nil || !bytes.Equal(got, b) {
+					if !retFail("%s: file %s in another directory was removed or changed", what, p) {
+						return false
+					}
+					break
+				}
+			}
+		}
 		// (a) no current file is ever removed
 		for _, lg := range e.logs {
 			if cur[lg.base] == nil {
@@ -742,9 +847,11 @@ func c19Run(c c19Case, root string, r *c19Result) {
 		}
 		// (b) files that are neither a current file nor a backup are never removed
 		for name, pf := range prev {
-			if cur[name] == nil && pf.kind == c19Other {
-				failf("%s: file %s, which is not a backup of this log, was removed", what, name)
-				return false
+			if cur[name] == nil && pf.kind == c19Other && retentionJudged {
+				if !retFail("%s: file %s, which is not a backup of this log, was removed", what, name) {
+					return false
+				}
+				break
 			}
 		}
 		// (d) pre-existing files still present are untouched
@@ -807,6 +914,7 @@ func c19Run(c c19Case, root string, r *c19Result) {
 			// bornOutdated: the backup made by this step's rotation is absent and its name was
 			// already older than the retention days, so the clean-up removed it at once
 			bornOutdated := false
+			newBackupAbsent := rotated
 			if rotated {
 				for _, expT := range expTs {
 					n := e.backupName(lg, expT, c.Compress)
@@ -815,6 +923,9 @@ func c19Run(c c19Case, root string, r *c19Result) {
 					}
 					if cur[n] == nil && c.Days > 0 && e.older(expT, now, c.Days) {
 						bornOutdated = true
+					}
+					if cur[n] != nil {
+						newBackupAbsent = false
 					}
 				}
 			}
@@ -840,10 +951,11 @@ func c19Run(c c19Case, root string, r *c19Result) {
 				if cur[name] != nil || pf.kind != c19Backup || pf.lg != lg.idx {
 					continue
 				}
-				if !justified(pf.t) {
-					failf("%s: backup %s was removed although it is neither older than %d day(s) at %s nor beyond the %d newest backups",
-						what, name, c.Days, now.Format(time.RFC3339), c.MaxBackups)
-					return false
+				if !justified(pf.t) && retentionJudged {
+					if !retFail("%s: backup %s was removed although it is neither older than %d day(s) at %s nor beyond the %d newest backups",
+						what, name, c.Days, now.Format(time.RFC3339), c.MaxBackups) {
+						return false
+					}
 				}
 				if c.Days > 0 && e.older(pf.t, now, c.Days) {
 					r.classes["removed-by-age"] = true
@@ -927,6 +1039,14 @@ func c19Run(c c19Case, root string, r *c19Result) {
 							lg.gone[id] = true
 							r.classes["backup-outdated-at-birth"] = true
 							continue
+						case globby && rotated && oldRecs[id] && newBackupAbsent:
+							// finding glob-meta-in-path: the clean-up's pattern also matched files of
+							// other logs, ranked them as newer and removed the backup just made
+							if r.knownGlob == "" {
+								r.knownGlob = fmt.Sprintf("%s: record %d was in the file rotated in this step, whose backup was removed at once although it is not outdated [the path contains a glob meta-character]", what, id)
+							}
+							lg.gone[id] = true
+							continue
 						}
 						if lg.l.fp == nil && (rotated || lg.rotations > 0) {
 							// characterises finding rotate-drops-fp (fixed in 5dfdeaa)
@@ -970,7 +1090,7 @@ func c19Run(c c19Case, root string, r *c19Result) {
 				return false
 			}
 			// (g) after a rotation's clean-up nothing clearly outdated is left (1 day of margin)
-			if rotated && coherent {
+			if rotated && coherent && retentionJudged {
 				n := 0
 				for _, f := range cur {
 					if f.kind != c19Backup || f.lg != lg.idx || f.gz != c.Compress {
@@ -987,14 +1107,17 @@ func c19Run(c c19Case, root string, r *c19Result) {
 						}
 					}
 					if c.Days > 0 && e.older(f.t, now, c.Days+1) {
-						failf("%s: backup %s is more than a day older than the %d retention day(s) at %s and survived the clean-up",
-							what, f.name, c.Days, now.Format(time.RFC3339))
-						return false
+						if !retFail("%s: backup %s is more than a day older than the %d retention day(s) at %s and survived the clean-up",
+							what, f.name, c.Days, now.Format(time.RFC3339)) {
+							return false
+						}
+						break
 					}
 				}
-				if c.Rule == "size" && c.MaxBackups > 0 && n > c.MaxBackups {
-					failf("%s: %d backups of %s left after the clean-up, maximum is %d", what, n, lg.base, c.MaxBackups)
-					return false
+				if retentionJudged && c.Rule == "size" && c.MaxBackups > 0 && n > c.MaxBackups {
+					if !retFail("%s: %d backups of %s left after the clean-up, maximum is %d", what, n, lg.base, c.MaxBackups) {
+						return false
+					}
 				}
 			}
 			if rotated {
@@ -1179,6 +1302,90 @@ func c19Run(c c19Case, root string, r *c19Result) {
 
 // ---------------------------------------------------------------- generator
 
+func c19PathClasses(s string) (out []string) {
+	if strings.Contains(s, "%") {
+		out = append(out, "path-has-percent")
+	}
+	if strings.ContainsAny(s, c19GlobMeta) {
+		out = append(out, "path-has-glob-meta")
+	}
+	if strings.ContainsAny(s, " #]{}$'\"") {
+		out = append(out, "path-has-shell-special")
+	}
+	for _, r := range s {
+		if r > 127 {
+			out = append(out, "path-non-ascii")
+			break
+		}
+	}
+	if len(s) > 150 {
+		out = append(out, "path-long")
+	}
+	return
+}
+
+// c19Witness returns a name, different from s, that the glob pattern s matches and that sorts
+// before s (so that the retention comparison of the clean-up calls it older), or "".
+func c19Witness(s string) string {
+	i := strings.IndexAny(s, c19GlobMeta)
+	if i < 0 {
+		return ""
+	}
+	w := ""
+	switch s[i] {
+	case '*', '?':
+		w = s[:i] + "!" + s[i+1:]
+	case '\\':
+		if i+1 < len(s) {
+			w = s[:i] + s[i+1:]
+		}
+	case '[':
+		if j := strings.IndexByte(s[i:], ']'); j > 1 {
+			w = s[:i] + s[i+1:i+2] + s[i+j+1:]
+		}
+	}
+	if w == "" || w == s || w == "." || w == ".." {
+		return ""
+	}
+	if ok, err := filepath.Match(s, w); err != nil || !ok {
+		return ""
+	}
+	return w
+}
+
+var c19NamePieces = []string{"a", "b", "log", "svc", "x1", "%s", "%d", "%20", "%!", "%", "%v", " ", "#", "*", "?", "[", "]", "[1]", "{", "}", "$",
+	"\\", "\\Z", "'", "\"", "-", ".", "_", "é", "日本", "😀", "~", "&", "(", ")", ";", ":", "=", "+", ","}
+
+var c19NameCurated = []string{"order%20service", "100%", "%s%d", "a b", "#1", "a*b", "q?", "a[1]", "[", "a]b", "{x}", "$HOME", "back\\Slash",
+	"it's", "\"q\"", "-rf", ".hidden", "trail.", "日本語", "naïve", "%!s(MISSING)", "a%", "*", "?x", "[a-z]og"}
+
+// c19NameGen draws one path component: anything but '/', NUL, "", "." and "..", at most 200 bytes.
+func c19NameGen(rt *rapid.T, label string) string {
+	var s string
+	switch rapid.IntRange(0, 9).Draw(rt, label+"Kind") {
+	case 0, 1, 2, 3:
+		s = rapid.SampledFrom(c19NameCurated).Draw(rt, label+"Curated")
+	case 4:
+		s = rapid.SampledFrom(c19NameCurated).Draw(rt, label+"Curated")
+		s += strings.Repeat("L", rapid.IntRange(100, 200).Draw(rt, label+"Long")-len(s))
+	default:
+		n := rapid.IntRange(1, 8).Draw(rt, label+"Pieces")
+		for k := 0; k < n; k++ {
+			s += rapid.SampledFrom(c19NamePieces).Draw(rt, label+"Piece")
+		}
+	}
+	if len(s) > 200 {
+		s = s[:200]
+		for !utf8.ValidString(s) {
+			s = s[:len(s)-1]
+		}
+	}
+	if s == "" || s == "." || s == ".." {
+		s = "x" + s
+	}
+	return s
+}
+
 func c19Gen(rt *rapid.T) c19Case     { return c19GenWith(rt, false) }
 func c19GenLogx(rt *rapid.T) c19Case { return c19GenWith(rt, true) }
 
@@ -1204,6 +1411,17 @@ func c19GenWith(rt *rapid.T, logx bool) c19Case {
 	}
 	c.Delim = rapid.SampledFrom([]string{"-", ".", "_"}).Draw(rt, "delim")
 	c.Base = rapid.SampledFrom([]string{"access.log", "svc", "a.b.log"}).Draw(rt, "base")
+	if !logx && rapid.Bool().Draw(rt, "oddBase") {
+		c.Base = c19NameGen(rt, "base")
+		if rapid.Bool().Draw(rt, "baseExt") {
+			c.Base += ".log"
+		}
+		c.Bait = c19Witness(c.Base)
+	}
+	if rapid.Bool().Draw(rt, "oddDir") {
+		c.Dir = c19NameGen(rt, "dir")
+		c.Sib = c19Witness(c.Dir)
+	}
 	c.T0 = rapid.SampledFrom([]int64{0, 0, 1, 3600, 43200, 86398, 86399}).Draw(rt, "t0")
 	c.StepWait = rapid.Bool().Draw(rt, "stepWait")
 	if logx { // newFileWriter fixes these
